@@ -10,14 +10,15 @@ def pt33(b):
     if b[0] not in (2, 3): return None
     return decompress(I(b[1:]), b[0] & 1)
 
-def encrypt(sk32, Y, msg32, aux=None):
-    """returns the 162 bytes or None (failure: the library then returns 0 and zeroes the output)"""
+def encrypt(sk32, Y, msg32, aux=None, main_nonce=None, dleq_nonce=None):
+    """returns the 162 bytes or None (failure: the library then returns 0 and zeroes the output).  main_nonce / dleq_nonce: the 32 bytes
+    a custom nonce function answers for the two requests (reduced mod n by the library; a zero scalar is a failure)"""
     d = I(sk32)
-    k = I(nonce_fn(msg32, sk32, ser33(Y), b'ECDSAadaptor/non', aux)) % n
+    k = I(main_nonce if main_nonce is not None else nonce_fn(msg32, sk32, ser33(Y), b'ECDSAadaptor/non', aux)) % n
     if k == 0: return None
     R = mul(k, Y); Rp = mulG(k)
     buf = sha(ser33(Rp) + ser33(R))
-    kd = I(nonce_fn(buf, b32(k), ser33(Y), b'DLEQ', aux)) % n
+    kd = I(dleq_nonce if dleq_nonce is not None else nonce_fn(buf, b32(k), ser33(Y), b'DLEQ', aux)) % n
     if kd == 0: return None
     R1 = mulG(kd); R2 = mul(kd, Y)
     e = dleq_chal(Rp, Y, R, R1, R2); ds = (kd + e * k) % n
